@@ -88,7 +88,7 @@ def generate(check, rng, tier, run_index):
     if run_index < len(table):
         fmt, wc, n, parts = table[run_index]
         with_time = CAPS[fmt]['time'] in ('opt', 'req', 'default')
-        cell = None if not wc else ('ortho' if CAPS[fmt]['cell'] == 'opt-ortho' or run_index % 2 else 'tric')
+        cell = None if not wc else ('ortho' if CAPS[fmt]['cell'] == 'opt-ortho' or run_index % 2 else ('tric' if run_index % 4 else 'mixed'))
         if fmt == 'mdcrd' and wc:
             cell = 'ortho'
         ops = [{'op': 'write', 'k': k} for k in parts]
@@ -97,13 +97,13 @@ def generate(check, rng, tier, run_index):
     fmt = rng.weighted(FORMAT_WEIGHTS)
     c = CAPS[fmt]
     if c['cell'] == 'req':
-        cell = rng.choice(['ortho', 'tric'])
+        cell = rng.choice(['ortho', 'tric', 'mixed'])
     elif c['cell'] is None:
         cell = None
     elif c['cell'] == 'opt-ortho':
         cell = rng.choice([None, 'ortho'])
     else:
-        cell = rng.choice([None, 'ortho', 'tric'])
+        cell = rng.choice([None, 'ortho', 'tric', 'mixed'])
     if c['time'] == 'req':
         with_time = True
     elif c['time'] is None:
@@ -664,7 +664,11 @@ def shrink_world(check, case):
             c = copy.deepcopy(case)
             c['n_atoms'] = v
             yield c
-    if case['cell'] == 'tric' and CAPS[case['fmt']]['cell'] != 'req':
+    if case['cell'] == 'mixed':
+        c = copy.deepcopy(case)
+        c['cell'] = 'tric'
+        yield c
+    if case['cell'] in ('tric', 'mixed') and CAPS[case['fmt']]['cell'] != 'req':
         c = copy.deepcopy(case)
         c['cell'] = 'ortho'
         yield c
